@@ -1,1 +1,10 @@
 import XPathV.Theorems.C14
+#print axioms XPathV.Theorems.C14.nametest_noNS
+#print axioms XPathV.Theorems.C14.unprefixed_matches_unprefixed
+#print axioms XPathV.Theorems.C14.nametest_NS
+#print axioms XPathV.Theorems.C14.nodeTest_spec
+#print axioms XPathV.Theorems.C14.unbound_prefix_error
+#print axioms XPathV.Theorems.C14.local_name_context
+#print axioms XPathV.Theorems.C14.name_context
+#print axioms XPathV.Theorems.C14.namespace_uri_first
+#print axioms XPathV.Theorems.C14.name_fn_empty
